@@ -31,7 +31,7 @@ def _config(cfg):
 
     method = cfg["method"]
     if method == "callable":
-        method = _custom_sampler
+        method = gen.wrap_callable(_custom_sampler, cfg.get("callable_kind", "function"))
     else:
         method = "".join(list(method))  # a run-time string (as read from a config file), not a literal
     strat = cfg.get("strat")
@@ -54,7 +54,7 @@ def _is_sub_multiset(sample, source):
     return all(cr[v] >= c for v, c in cs.items())
 
 
-def check_sample(src, cfg, sample, source_obj, ctx):
+def check_sample(src, cfg, sample, source_obj, ctx, switch=100):
     """Per-sample invariants (exact)."""
     from score_analysis import Scores
 
@@ -91,7 +91,7 @@ def check_sample(src, cfg, sample, source_obj, ctx):
                 f"{ctx}: source has {m} scored negatives, sample has none")
     resolved = method
     if method == "dynamic":
-        resolved = "replacement" if (n < 100 or m < 100 or smoothing) else "single_pass"
+        resolved = "replacement" if (n < switch or m < switch or smoothing) else "single_pass"
     require(sample.nb_easy_pos >= 0 and sample.nb_easy_neg >= 0, "boot:negative-easy", ctx)
     if resolved == "replacement":
         require(sample.nb_all_samples == n + m + ep + en, "boot:total-count",
@@ -156,10 +156,27 @@ def _wf_cases(draw):
                                       st.floats(min_value=0.01, max_value=0.99)))
     if method in ("replacement", "dynamic") and src["pos"] and src["neg"] and src.get("dtype") != "bool":
         cfg["smoothing"] = draw(st.sampled_from([False, False, True]))
-    return dict(src=src, cfg=cfg, seed=draw(gen.RNG_SEED), reps=draw(st.integers(1, 6)))
+    if method == "callable":
+        cfg["callable_kind"] = draw(st.sampled_from(gen.CALLABLE_KINDS))
+    # the documented run-time setting of the dynamic switch (None = leave the shipped value, 100)
+    switch = draw(st.sampled_from([None, None, None, 5, 20, 110, 1000])) if method == "dynamic" else None
+    return dict(src=src, cfg=cfg, seed=draw(gen.RNG_SEED), reps=draw(st.integers(1, 6)), switch=switch)
 
 
 def check_wellformed(case):
+    import score_analysis.scores as sa_scores
+
+    shipped = sa_scores.SINGLE_PASS_SAMPLE_THRESHOLD
+    if case.get("switch") is not None:
+        # "The threshold can be changed by setting the variable SINGLE_PASS_SAMPLE_THRESHOLD."
+        sa_scores.SINGLE_PASS_SAMPLE_THRESHOLD = case["switch"]
+    try:
+        return _check_wellformed(case, case.get("switch") or shipped)
+    finally:
+        sa_scores.SINGLE_PASS_SAMPLE_THRESHOLD = shipped
+
+
+def _check_wellformed(case, switch):
     src, cfg = case["src"], case["cfg"]
     s = _source(src)
     p0, n0 = s.pos.copy(), s.neg.copy()
@@ -169,13 +186,13 @@ def check_wellformed(case):
     for j in range(case["reps"]):
         ctx = f"cfg={cfg} seed={case['seed']} draw {j} source n={n} m={m} ep={src['ep']} en={src['en']} {src['sc']}/{src['ec']}"
         b = s.bootstrap_sample(config)
-        check_sample(src, cfg, b, s, ctx)
+        check_sample(src, cfg, b, s, ctx, switch=switch)
     require(np.array_equal(s.pos, p0) and np.array_equal(s.neg, n0), "boot:source-mutated", "")
     # dynamic = the documented choice, under the same seed
-    if cfg["method"] == "dynamic" and n != 100 and m != 100 and n and m:
+    if cfg["method"] == "dynamic" and n != switch and m != switch and n and m:
         from score_analysis import BootstrapConfig
 
-        explicit = "single_pass" if (n > 100 and m > 100 and not cfg.get("smoothing")) else "replacement"
+        explicit = "single_pass" if (n > switch and m > switch and not cfg.get("smoothing")) else "replacement"
         np.random.seed(case["seed"])
         a = s.bootstrap_sample(config)
         np.random.seed(case["seed"])
@@ -183,8 +200,13 @@ def check_wellformed(case):
                                                stratified_sampling=cfg.get("strat"),
                                                smoothing=cfg.get("smoothing", False)))
         require(a == b, "boot:dynamic-choice",
-                f"dynamic on n={n} m={m} smoothing={cfg.get('smoothing')} differs from explicit {explicit}")
+                f"dynamic on n={n} m={m} smoothing={cfg.get('smoothing')} with SINGLE_PASS_SAMPLE_THRESHOLD="
+                f"{switch} differs from explicit {explicit}")
     labels = [f"method:{cfg['method']}", f"strat:{cfg['strat']}"]
+    if case.get("switch") is not None:
+        labels.append(f"switch:{case['switch']}")
+    if cfg.get("callable_kind"):
+        labels.append(f"callable:{cfg['callable_kind']}")
     if cfg.get("smoothing"):
         labels.append("smoothing")
     if n >= 90:
@@ -415,4 +437,4 @@ PROP = Prop(
                  "'>100' and 'at least 100')"],
 )
 
-RULE_EXTRA = ('uint8/uint16/int8/float32/bool sources; sources with few scored and up to 600 easy samples per class.')
+RULE_EXTRA = ('the dynamic switch SINGLE_PASS_SAMPLE_THRESHOLD re-assigned at run time (5/20/110/1000) as its documentation allows; custom samplers as function / lambda / partial / bound method / callable object / (unhashable) dataclass instance; uint8/uint16/int8/float32/bool sources; sources with few scored and up to 600 easy samples per class.')
